@@ -196,7 +196,7 @@ class NCDomain(BaseDomain):
             return Namespace("time", time=lambda: Opaque("time"), perf_counter=lambda: Opaque("time"))
         if name in ("os", "sys", "typing"):
             return Namespace(name)
-        raise Unsupported(f"unknown-external module {name!r}")
+        return super().ext_module(name)
 
     # ---- protocol
     def truth(self, v):
